@@ -470,7 +470,7 @@ func (s *Scanner) skipSpaces() {
 }
 
 func (s *Scanner) emit(text string) *Stmt {
-	stmt := &Stmt{Pos: s.total - len(text), Text: text, Comments: s.comments}
+	stmt := &Stmt{Pos: s.total - s.pos, Text: text, Comments: s.comments}
 	s.input = s.input[s.pos:]
 	s.pos = 0
 	s.comments = nil
